@@ -56,6 +56,7 @@ type Harness struct {
 	Expect   []string // labels of reach witnesses that must be hit
 	Doc      string
 	Solver   string
+	NoNative bool
 }
 
 type WorkItem struct {
@@ -117,6 +118,7 @@ type HarnessResult struct {
 	Leaked       []string        `json:"leaked_goroutines,omitempty"`
 	Bounds       map[string]int  `json:"bounds"`
 	Doc          string          `json:"doc,omitempty"`
+	NoNative     bool            `json:"no_native,omitempty"`
 }
 
 func loadProgram(opts *Options) (*ssa.Program, []*packages.Package, error) {
@@ -283,6 +285,10 @@ func findHarnesses(prog *ssa.Program, pkgs []*packages.Package, prop string, tie
 						h.Preempt = atoi(1)
 					case "timers":
 						h.Timers = atoi(1)
+					case "native":
+						if len(f) > 1 && f[1] == "off" {
+							h.NoNative = true
+						}
 					case "solver":
 						if len(f) > 1 {
 							h.Solver = f[1]
@@ -609,7 +615,7 @@ func backendFor(h *Harness, opts *Options) string {
 }
 
 func explore(prog *ssa.Program, h *Harness, opts *Options) *HarnessResult {
-	res := &HarnessResult{Name: h.Name, Pkg: h.Pkg, Reached: map[string]int{}, Asserts: map[string]int{}, Doc: h.Doc,
+	res := &HarnessResult{Name: h.Name, Pkg: h.Pkg, Reached: map[string]int{}, Asserts: map[string]int{}, Doc: h.Doc, NoNative: h.NoNative,
 		Bounds: map[string]int{"unwind": h.Unwind, "max_steps_per_path": h.MaxSteps, "max_paths": h.MaxPaths, "preemptions": h.Preempt, "timer_firings": h.Timers}}
 	e := &explorer{res: res, funcs: map[string]bool{}, vio: map[string]*ViolationOut{}, inconc: map[string]int{}, unknown: map[string]int{},
 		approx: map[string]bool{}, leaked: map[string]bool{}, h: h, opts: opts, start: time.Now()}
